@@ -108,23 +108,31 @@ structure Cfg where
   foldCase : Bool         -- `service_register` / `service_remove` build their key from the lower-cased name (both
                           -- subsystems, since the repair): names that differ only in case share count and owner, as
                           -- they share the Home Assistant service.  Before: `key = f"{domain}.{service}"` as written.
+  regEarly : Bool         -- a legacy function is entered in `GlobalContext.triggers` with its first registration (since
+                          -- the repair of C12-F11).  Before: only at the end of `trigger_init`, so a function whose
+                          -- registration loop was aborted by a refused name was unknown to `GlobalContext.stop()` and the
+                          -- names it had registered were not released when its file was unloaded.  (New subsystem: the
+                          -- manager is in `GlobalContext.dms` from its validation on – always true.)
 deriving DecidableEq, Repr
 
 /-- the two subsystems as the source has them now: the repair switches are read off the source by the extractor -/
 def legacyCfg : Cfg :=
   ⟨true, false, false, false, false, PsModel.Gen.LEGACY_SKIPS_DUPLICATE, false, false,
-   PsModel.Gen.BUILTIN_TEST_FOLDS_CASE_LEGACY, PsModel.Gen.SERVICE_KEY_LOWERCASED⟩
+   PsModel.Gen.BUILTIN_TEST_FOLDS_CASE_LEGACY, PsModel.Gen.SERVICE_KEY_LOWERCASED,
+   PsModel.Gen.LEGACY_KNOWN_TO_CONTEXT_AT_FIRST_REGISTRATION⟩
 def newCfg : Cfg :=
   ⟨false, PsModel.Gen.SERVICE_OWNER_IS_EVALUATOR, true, true, true, false,
    PsModel.Gen.DELETED_BEFORE_START_DISCARDED, PsModel.Gen.START_IN_DEFINITION_ORDER,
-   PsModel.Gen.BUILTIN_TEST_FOLDS_CASE_NEW, PsModel.Gen.SERVICE_KEY_LOWERCASED⟩
-/-- … and as they were before the `fix:` commits (findings C12-F2, C12-F3, C12-F4, C12-F5, C12-F9, C12-F10) -/
-def legacyPreFix : Cfg := ⟨true, false, false, false, false, false, false, false, false, false⟩
-def newPreFix : Cfg := ⟨false, true, true, true, true, false, false, false, false, false⟩
+   PsModel.Gen.BUILTIN_TEST_FOLDS_CASE_NEW, PsModel.Gen.SERVICE_KEY_LOWERCASED, true⟩
+/-- … and as they were before the `fix:` commits (findings C12-F2, C12-F3, C12-F4, C12-F5, C12-F9, C12-F10, C12-F11) -/
+def legacyPreFix : Cfg := ⟨true, false, false, false, false, false, false, false, false, false, false⟩
+def newPreFix : Cfg := ⟨false, true, true, true, true, false, false, false, false, false, true⟩
 /-- today's code with only the built-in name test as it was before the repair of C12-F10 -/
 def builtinAsWritten (c : Cfg) : Cfg := { c with foldBuiltin := false }
 /-- today's code with only the key of the count table as it was before the repair of C12-F9 -/
 def caseSensitive (c : Cfg) : Cfg := { c with foldCase := false }
+/-- today's code with only the entry in the context's trigger registry as late as before the repair of C12-F11 -/
+def registeredLate (c : Cfg) : Cfg := { c with regEarly := false }
 
 /-- the key `service_register` / `service_remove` compute for a name as written in `@service(...)`.  A holder of the
 model remembers its names as these keys (the code remembers them as written and computes the key at every call: the
@@ -145,6 +153,8 @@ structure Holder where
   tracked : List Svc              -- what a stop will remove: `trigger_service` / the decorators of a started manager
   status : Status
   bound : Bool                    -- the function variable is alive
+  failed : Bool := false          -- the registration loop was aborted by a refused name and the holder kept what it had
+                                  -- (legacy: `trigger_init` raised; the function never reached `trigger_register`)
 deriving Repr
 
 structure MState where
@@ -177,7 +187,8 @@ def acquireAll (cfg : Cfg) (o : OwnerName) (gen : Nat) : Reg → List (Svc × Re
 def startReg (cfg : Cfg) (a : Acq) : Reg := if a.ok || !cfg.rollback then a.reg else releaseList a.reg a.tracked
 /-- the holder that results (none: the manager became INVALID) -/
 def startHolder (cfg : Cfg) (h : Holder) (a : Acq) : Option Holder :=
-  if a.ok || !cfg.rollback then some { h with pending := [], tracked := a.tracked, status := .running } else none
+  if a.ok || !cfg.rollback then some { h with pending := [], tracked := a.tracked, status := .running, failed := !a.ok }
+  else none
 
 /-- the function variable `(ctx, var)` loses the object `h` refers to (`__del__` / `weakref.finalize`) -/
 def dropReg (cfg : Cfg) (r : Reg) (h : Holder) : Reg :=
@@ -212,7 +223,7 @@ inductive Op
 deriving DecidableEq, Repr
 
 def newHolder (cfg : Cfg) (ctx : String) (fn : Option String) (var : String) (gen : Nat) (decl : List (Svc × Resp)) : Holder :=
-  ⟨gen, ctx, var, ownerFor cfg ctx fn, decl, [], .delayed, true⟩
+  ⟨gen, ctx, var, ownerFor cfg ctx fn, decl, [], .delayed, true, false⟩
 
 def defineStep (cfg : Cfg) (st : MState) (ctx : String) (fn : Option String) (var : String) (gen : Nat)
     (decl : List (Svc × Resp)) : MState :=
@@ -274,11 +285,19 @@ def delayedGens (ctx : String) (hs : List Holder) : List Nat :=
 (later decorators of a manager may interleave with other managers: `start()` awaits between decorators) -/
 def startOrderOK (ctx : String) (hs : List Holder) (events : List Nat) : Bool := events.eraseDups == delayedGens ctx hs
 
-def unloadReg (ctx : String) : Reg → List Holder → Reg
+/-- does `GlobalContext.stop()` of `ctx` reach the holder?  It stops what is in `self.triggers` / `self.dms`; before the
+repair of C12-F11 a legacy function whose `trigger_init` had been aborted was not in `self.triggers`. -/
+def leaves (cfg : Cfg) (ctx : String) (h : Holder) : Bool := h.ctx == ctx && (cfg.regEarly || !h.failed)
+
+def unloadReg (p : Holder → Bool) : Reg → List Holder → Reg
   | r, [] => r
   | r, h :: hs =>
     -- `trigger_stop()` / `dm.stop()`: a manager that is not RUNNING has started nothing (`tracked = []`)
-    if h.ctx == ctx then unloadReg ctx (releaseList r h.tracked) hs else unloadReg ctx r hs
+    if p h then unloadReg p (releaseList r h.tracked) hs else unloadReg p r hs
+
+/-- a holder that `GlobalContext.stop()` did not reach although its context is gone: no variable refers to it any more
+(nothing will ever release it) -/
+def orphan (ctx : String) (h : Holder) : Holder := if h.ctx == ctx then { h with bound := false } else h
 
 def step (cfg : Cfg) (st : MState) : Op → MState
   | .define ctx fn var gen decl => defineStep cfg st ctx fn var gen (foldDecl cfg decl)
@@ -289,7 +308,8 @@ def step (cfg : Cfg) (st : MState) : Op → MState
                  (cfg.orderedStart && !startOrderOK ctx st.holders events) }
     else st
   | .delete ctx var => { st with reg := unbindReg cfg st.reg ctx var st.holders, holders := unbindHolders cfg ctx var st.holders }
-  | .unload ctx => { st with reg := unloadReg ctx st.reg st.holders, holders := st.holders.filter (fun h => h.ctx != ctx) }
+  | .unload ctx => { st with reg := unloadReg (leaves cfg ctx) st.reg st.holders,
+                             holders := (st.holders.filter (fun h => !leaves cfg ctx h)).map (orphan ctx) }
 
 def run (cfg : Cfg) : MState → List Op → MState
   | st, [] => st
@@ -383,12 +403,24 @@ def scriptRr (r : Reg) (k : Svc) (rr : Bool) : Bool :=
          | some h => h.resp == .only
          | none => false)
 
+/-- the two shape switches of the script-side call path (`function.py` `hass_services_async_call`, `state.py` `State.get`),
+read off the source -/
+structure OutCfg where
+  entityViaHelper : Bool  -- the entity-method form calls `Function.hass_services_async_call` like the other two forms
+                          -- (since the repair of C12-F8); before: `hass.services.async_call` directly
+  lookupGuarded : Bool    -- the helper asks `supports_response` only for a service that exists (same repair); before, the
+                          -- look-up of a missing service raised `KeyError`
+deriving DecidableEq, Repr
+
+def outCfg : OutCfg := ⟨PsModel.Gen.ENTITY_METHOD_USES_CALL_HELPER, PsModel.Gen.RESPONSE_LOOKUP_ONLY_IF_SERVICE_EXISTS⟩
+def outPreFix : OutCfg := ⟨false, false⟩
+
 /-- `service.call(domain, name, …)` from a script.  For a service that does not exist, the look-up
 `hass.services.supports_response(domain, service)` – made when the script did not pass `return_response` – raises
 `KeyError` before Home Assistant gets to raise `ServiceNotFound`. -/
-def scriptCallOutcome (cfg : Cfg) (r : Reg) (k : Svc) (ctxVal : String) (data : Kw) (rr : Bool) : CallOut :=
+def scriptCallOutcome (oc : OutCfg) (cfg : Cfg) (r : Reg) (k : Svc) (ctxVal : String) (data : Kw) (rr : Bool) : CallOut :=
   match aget k r.handler with
-  | none => if rr then .notFound else .lookupError
+  | none => if rr || oc.lookupGuarded then .notFound else .lookupError
   | some _ => callOutcome cfg r k ctxVal data (scriptRr r k rr)
 
 /-- several calls of one service that overlap in time (the function suspends, e.g. in `task.sleep`, and the next call
@@ -413,10 +445,17 @@ deriving DecidableEq, Repr
 inductive Entry | serviceCall | domainService | entityMethod
 deriving DecidableEq, Repr
 
-/-- the `(keyword, types, default)` table of the entry point; the default of `context` is the task's context -/
+def tyOf : String → Option Ty
+  | "context" => some .context | "bool" => some .bool | "int" => some .int | "float" => some .float | _ => none
+
+/-- the `(keyword, types, default)` table of the entry point as the extractor reads it off the `for keyword, typ, default in
+[...]` loop of `Function.service_call` / `Function.get` / `State.get`; the default of `context` is the task's context -/
 def controlTable (e : Entry) : List (String × List Ty) :=
-  [("context", [.context]), ("blocking", [.bool]), ("return_response", [.bool])] ++
-    (if e = .entityMethod then [("limit", [.float, .int])] else [])
+  (match e with
+   | .serviceCall => PsModel.Gen.CONTROL_TABLE_SERVICE_CALL
+   | .domainService => PsModel.Gen.CONTROL_TABLE_DOMAIN_SERVICE
+   | .entityMethod => PsModel.Gen.CONTROL_TABLE_ENTITY_METHOD).map
+    (fun (r : String × List String) => (r.1, r.2.filterMap tyOf))
 
 def findArg (k : String) : List Arg → Option Arg
   | [] => none
@@ -446,9 +485,10 @@ def hasTrue (k : String) (as : List Arg) : Bool :=
   | none => false
 def has (k : String) (as : List Arg) : Bool := (findArg k as).isSome
 
-/-- `Function.hass_services_async_call`: response handling added on top of the split (not used by entity methods) -/
-def finishCall (e : Entry) (only : Bool) (hassArgs : List Arg) : List Arg :=
-  if e = .entityMethod then hassArgs
+/-- `Function.hass_services_async_call`: response handling added on top of the split (before the repair of C12-F8 not
+used by entity methods) -/
+def finishCall (oc : OutCfg) (e : Entry) (only : Bool) (hassArgs : List Arg) : List Arg :=
+  if e = .entityMethod && !oc.entityViaHelper then hassArgs
   else if hasTrue "return_response" hassArgs && !has "blocking" hassArgs then hassArgs ++ [⟨"blocking", .bool, "true"⟩]
   else if !has "return_response" hassArgs && only then
     (hassArgs ++ [⟨"return_response", .bool, "true"⟩]) ++
